@@ -1,7 +1,7 @@
 # Builds the Coq development (full .vo build) and the extracted model drivers.
 COQDIR := coq
 EXDIR  := coq/extract
-DRIVERS := sections
+DRIVERS := sections smartlist
 BINS := $(DRIVERS:%=$(EXDIR)/%_run)
 
 .PHONY: all coq drivers clean
@@ -13,7 +13,7 @@ coq:
 drivers: $(BINS)
 
 # Extract*.v -> *_model.ml ; then model + conv + driver concatenated into one compilation unit
-$(EXDIR)/%_run: $(EXDIR)/Extract%.v $(EXDIR)/conv.ml $(EXDIR)/%_driver.ml coq
+$(EXDIR)/%_run: $(EXDIR)/Extract%.v $(EXDIR)/conv.ml $(EXDIR)/%_driver.ml $(wildcard $(COQDIR)/*.v) | coq
 	cd $(EXDIR) && timeout 600 coqc -Q .. MW Extract$*.v > /dev/null
 	cd $(EXDIR) && cat $*_model.ml conv.ml $*_driver.ml > $*_all.ml && timeout 600 ocamlfind ocamlopt -w -a $*_all.ml -o $*_run
 
